@@ -34,8 +34,17 @@ After(ev, k, m) == IF k = 0 THEN CW!EStart ELSE Apply(After(ev, k - 1, m), ev[k]
 SafeEverywhere(r) == \A k \in 0..Len(r.events) : CW!SafeSt(After(r.events, k, r.mode))
 Final(r) == After(r.events, Len(r.events), r.mode)
 
+\* kind "crash": the process was killed at one point of the protocol (r.err names it); only the disk
+\* state is known, and CleanWrite!Safe must hold on it: the input is gone only if the output is complete
+CrashFailing(r) ==
+    {c \in {"CrashSafe", "Untouched"} :
+        \/ c = "CrashSafe" /\ ~CW!SafeSt(CW!St(IF r.input_present_after THEN "present" ELSE "removed",
+                                                IF r.out_complete THEN "complete" ELSE "partial", FALSE))
+        \/ c = "Untouched" /\ r.input_present_after /\ ~r.input_unchanged }
+
 Failing(r) ==
     IF ~r.shape_ok \/ \E k \in 1..Len(r.events) : r.events[k] \notin Known THEN {"Shape"}
+    ELSE IF r.kind = "crash" THEN CrashFailing(r)
     ELSE {c \in {"Safe", "ModelMatchesDisk", "RemovedOnlyIfComplete", "Untouched", "NoRemoveWithoutClean",
                  "OneRemoveAtMost"} :
           \/ c = "Safe" /\ ~SafeEverywhere(r)
